@@ -206,6 +206,14 @@ def check(prog, res, tier):
             # unpacked int drives the record read
             req = _read_request(p, e2)
             if req is None or p.store.decide_eq0(req - u.lin) is not True:
+                obj_ = p.interp.user.get('reader')
+                kept = [e for e in p.events if e.kind == 'setattr' and e.seq > e2.seq and e.data.get('obj') is obj_
+                        and e.data.get('attr') not in ('last_record', 'record_number') and isinstance(e.data.get('value'), SeqV)
+                        and e.data['value'].kind == 'bytes']       # (possibly the empty rest of a short read)
+                if kept:
+                    # the surplus of a larger read is kept on the reader for the next call: a read-ahead design
+                    from .vbs import NOT_DIRECT
+                    return [soft(NOT_DIRECT, e2.node)]
                 fails.append(definite(f'record read size is {req}, not the unpacked prefix {u.lin}', e2.node))
             # returned value is the record read, complete
             if not same_seq(p, p.value, d2):
